@@ -249,6 +249,20 @@ func properties() map[string]*PropertySpec {
 				out = append(out, instLS("H_C13_check", allLangs(), []int64{12}, 1)...)
 			}
 			out = append(out, &Instance{Harness: "H_C13_seed", Lang: 2, MaxWitnesses: 1})
+			seqL := []int64{2, 5}
+			if tier == "thorough" {
+				seqL = allLangs()
+			}
+			for _, l := range seqL {
+				out = append(out, &Instance{Harness: "H_C13_seq", Args: []int64{l, 12, 12}, Lang: int(l), MaxWitnesses: 1})
+				out = append(out, &Instance{Harness: "H_C13_seq", Args: []int64{l, 12, 15}, Lang: int(l), MaxWitnesses: 1})
+				out = append(out, &Instance{Harness: "H_C13_seq_gen", Args: []int64{l, 12, 16}, Lang: int(l), MaxWitnesses: 1})
+				if tier == "thorough" {
+					out = append(out, &Instance{Harness: "H_C13_seq", Args: []int64{l, 24, 12}, Lang: int(l), MaxWitnesses: 1})
+					out = append(out, &Instance{Harness: "H_C13_seq", Args: []int64{l, 15, 24}, Lang: int(l), MaxWitnesses: 1})
+					out = append(out, &Instance{Harness: "H_C13_seq_gen", Args: []int64{l, 24, 32}, Lang: int(l), MaxWitnesses: 1})
+				}
+			}
 			return out
 		},
 		Bounds:  []string{"history = up to two earlier first uses of arbitrary languages (symbolic, incl. none/unsupported) then the call, then a second call", "plus footprint induction: every path of every exported call writes only the once/map pair of its own language", "sizes: quick 16-byte entropy / 12 tokens, thorough all sizes"},
@@ -277,6 +291,10 @@ func properties() map[string]*PropertySpec {
 				lang := int(sel)
 				if sel < 0 {
 					lang = 2
+				}
+				if sel == 2 || sel == 5 || (tier == "thorough" && sel >= 0) {
+					out = append(out, &Instance{Harness: "H_C13_seq", Args: []int64{sel, 12, 15}, Lang: lang, MaxWitnesses: 1})
+					out = append(out, &Instance{Harness: "H_C13_seq", Args: []int64{sel, 15, 12}, Lang: lang, MaxWitnesses: 1})
 				}
 				out = append(out, &Instance{Harness: "H_C14_Entropy", Args: []int64{sel}, Lang: lang, MaxWitnesses: 1})
 				out = append(out, &Instance{Harness: "H_C14_New", Args: []int64{sel, 2}, Lang: lang, MaxWitnesses: 1})
@@ -460,6 +478,9 @@ func runCheck(spec *PropertySpec, cfg Config) int {
 		spec.Post(c)
 	}
 	c.judge()
+	if len(c.Violations) == 0 {
+		c.runFallback()
+	}
 	wall := time.Since(t0).Seconds()
 	writeEvidence(c, wall)
 	return c.report(wall)
@@ -567,7 +588,7 @@ func (c *CheckRun) judge() {
 		c.Broken = append(c.Broken, "native replay: "+err.Error())
 		return
 	}
-	os.MkdirAll(filepath.Join(verifDir(), "evidence", "replays"), 0755)
+	os.MkdirAll(filepath.Join(evidenceDir(), "replays"), 0755)
 	nviol := 0
 	doneFinding := map[*Finding]bool{}
 	lastMiss := map[*Finding]string{}
@@ -606,7 +627,7 @@ func (c *CheckRun) judge() {
 			continue
 		}
 		nviol++
-		path := filepath.Join(verifDir(), "evidence", "replays", fmt.Sprintf("%s-%d.json", c.Spec.ID, nviol))
+		path := filepath.Join(evidenceDir(), "replays", fmt.Sprintf("%s-%d.json", c.Spec.ID, nviol))
 		p.vec.Note = fmt.Sprintf("native replay: failures=%v panic=%q", r.Failures, r.Panic)
 		b, _ := json.MarshalIndent(p.vec, "", " ")
 		os.WriteFile(path, b, 0644)
@@ -815,9 +836,9 @@ func writeEvidence(c *CheckRun, wall float64) {
 		"wall_s":      wall,
 		"violations":  len(c.Violations),
 	}
-	os.MkdirAll(filepath.Join(verifDir(), "evidence"), 0755)
+	os.MkdirAll(evidenceDir(), 0755)
 	b, _ := json.MarshalIndent(ev, "", " ")
-	os.WriteFile(filepath.Join(verifDir(), "evidence", id+".json"), b, 0644)
+	os.WriteFile(filepath.Join(evidenceDir(), id+".json"), b, 0644)
 }
 
 func evidenceExplanation(c *CheckRun) string {
@@ -885,6 +906,7 @@ func main() {
 			}
 		}
 		if cfg.Tier == "thorough" {
+			instWallBudget = 3600
 			cfg.Solvers = []string{"z3-new", "z3", "cvc5"}
 			cfg.Timeout = 300000
 		} else {
@@ -934,13 +956,13 @@ func main() {
 		}
 		rc := runCheck(spec, Config{Tier: "quick", Workers: 1, Timeout: to, Solvers: solvers})
 		pprof.StopCPUProfile()
-		b, _ := os.ReadFile(filepath.Join(verifDir(), "evidence", "DEBUG.json"))
+		b, _ := os.ReadFile(filepath.Join(evidenceDir(), "DEBUG.json"))
 		var ev map[string]interface{}
 		json.Unmarshal(b, &ev)
 		cov := ev["coverage"].(map[string]interface{})
 		fmt.Println("solvers:", cov["solvers"])
 		fmt.Println("samples:", cov["samples"])
-		os.Remove(filepath.Join(verifDir(), "evidence", "DEBUG.json"))
+		os.Remove(filepath.Join(evidenceDir(), "DEBUG.json"))
 		os.Exit(rc)
 	case "replay":
 		if len(os.Args) < 3 {
@@ -1016,7 +1038,7 @@ func c08Post(c *CheckRun) {}
 func c13Post(c *CheckRun) {}
 
 
-var opaquePool = []string{"ｆｕｌｌ　ｗｉｄｔｈ", "caf\u00e9 \u212b", "e\u0301\u0323 a\u0323\u0301", "\u00a0x\u2003y", "\u3392\ufb01\u00bd", "\u0301\u0323lead", "\ud55c\uae00 \u304c\u30ac", "plain ascii", strings.Repeat("\u00e9\u3000", 80)}
+var opaquePool = []string{"\ufdfa", "\u3316\u3316\u3316", "\u2057\u2057 x", "pw\ufdfa\u0301", "ｆｕｌｌ　ｗｉｄｔｈ", "caf\u00e9 \u212b", "e\u0301\u0323 a\u0323\u0301", "\u00a0x\u2003y", "\u3392\ufb01\u00bd", "\u0301\u0323lead", "\ud55c\uae00 \u304c\u30ac", "plain ascii", strings.Repeat("\u00e9\u3000", 80)}
 
 // spellingVariants: alternative concrete choices for opaque-text and spelling inputs of a counterexample.
 func spellingVariants(vals map[string]interface{}) []map[string]interface{} {
@@ -1051,7 +1073,7 @@ func spellingVariants(vals map[string]interface{}) []map[string]interface{} {
 		}
 	}
 	if len(forms) > 0 {
-		for f := 0; f < 6; f++ {
+		for f := 0; f < 8; f++ {
 			m := clone()
 			for _, name := range forms {
 				m[name] = f
@@ -1059,7 +1081,7 @@ func spellingVariants(vals map[string]interface{}) []map[string]interface{} {
 			out = append(out, m)
 			m2 := clone()
 			for k, name := range forms {
-				m2[name] = (f + k + 1) % 6
+				m2[name] = (f + k + 1) % 8
 			}
 			out = append(out, m2)
 		}
